@@ -40,6 +40,8 @@ for fn in sorted(glob.glob(ROOT + "/seeded/*/meta.json")):
             det += f" — patch does not apply to /repo {rc.get('repo_head')}"
         elif rc.get("demo_rc_mutated") == 0:
             det += f" — STALE on /repo {rc.get('repo_head')}: a later fix: commit made the change behaviour-preserving (its demo passes with the patch applied), so a miss is not a miss"
+        if os.path.exists(os.path.join(os.path.dirname(fn), "patch-orig-pre900f6ae.diff")):
+            det += " — patch re-based by the lead on /repo 900f6ae (original kept as patch-orig-pre900f6ae.diff)"
         if os.path.exists(os.path.join(os.path.dirname(fn), "patch-orig-pre2956bb2.diff")):
             det += " — patch re-based by the lead on /repo 2956bb2 (original kept as patch-orig-pre2956bb2.diff)"
     need = m.get("needs_to_manifest", "")[:260]
